@@ -181,18 +181,47 @@ def table_trace(g: fx.Graph) -> Optional[Dict[str, Any]]:
     return rec
 
 
+SKIPS = {"graphs_with_inexact_metrics": 0, "same_scale_rtol_too_close_to_a_threshold": 0, "graphs": 0, "graphs_separating_rtol_2^-16_from_2^-8": 0}
+
+
+def chain_trace(g: fx.Graph, rtol: Tuple[int, int], targets: List[Any]) -> Dict[str, Any]:
+    """The pipeline analysis.plot runs: prune_non_float_tensors, then prune_same_scale_tensors on ITS result, then
+    prune_selected_nodes on that (helpers applied to already re-wired graphs)."""
+    from unit_scaling.transforms import prune_non_float_tensors, prune_same_scale_tensors, prune_selected_nodes
+
+    absg, ids = fxgen.fx_to_abs(g)
+    err, out = "", None
+    try:
+        g1 = prune_non_float_tensors(g)
+        g2 = prune_same_scale_tensors(g1, rtol[0] / rtol[1])
+        out = prune_selected_nodes(copy.deepcopy(g2), targets)
+        out.lint()
+    except Exception as ex:
+        err = f"{type(ex).__name__}: {str(ex)[:150]}"
+    return {"h": "chain", "rtol": list(rtol), "targets": sorted({fxgen.target_name(t) for t in targets}), "g": absg,
+            "out": fxgen.fx_to_abs(out, ids)[0] if (out is not None and not err) else [], "err": err, "after": fxgen.fx_to_abs(g, ids)[0]}
+
+
 def traces_for_graph(g: fx.Graph, rng: random.Random) -> List[Dict[str, Any]]:
     absg, _ = fxgen.fx_to_abs(g)
+    SKIPS["graphs"] += 1
     if not exact_metrics(absg, g):
+        SKIPS["graphs_with_inexact_metrics"] += 1
         return []
+    if any(n["tgt"] == "op.mul" and any(a == ["c", "1.001953125"] for a in n["args"]) for n in absg):
+        SKIPS["graphs_separating_rtol_2^-16_from_2^-8"] += 1
     tr = [one_trace(g, "non_float", (0, 1), [])]
     tt = table_trace(g)
     if tt is not None:
         tr.append(tt)
+    tgts = sorted({n.target for n in g.nodes if n.op in ("call_function", "call_method")}, key=str)
     for rt in RTOLS:
         if not threshold_ambiguous(absg, rt):
             tr.append(one_trace(g, "same_scale", rt, []))
-    tgts = sorted({n.target for n in g.nodes if n.op in ("call_function", "call_method")}, key=str)
+            if tgts and rng.random() < 0.5:
+                tr.append(chain_trace(g, rt, rng.sample(tgts, rng.randint(1, min(2, len(tgts))))))
+        else:
+            SKIPS["same_scale_rtol_too_close_to_a_threshold"] += 1
     for _ in range(2):
         if tgts:
             tr.append(one_trace(g, "selected", (0, 1), rng.sample(tgts, rng.randint(1, min(3, len(tgts))))))
@@ -248,7 +277,10 @@ def run(rep: Report, tier: str) -> None:
         traces += t
         rep.case((gen[0], i), nontrivial=nn_ >= 5)
     judge(rep, traces)
-    rep.extra["traces_by_helper"] = {h: sum(1 for t in traces if t["h"] == h) for h in ("non_float", "same_scale", "selected", "table")}
+    rep.extra["traces_by_helper"] = {h: sum(1 for t in traces if t["h"] == h) for h in ("non_float", "same_scale", "selected", "table", "chain")}
+    rep.extra["skips"] = dict(SKIPS)
+    if SKIPS["graphs_separating_rtol_2^-16_from_2^-8"] < (5 if quick else 50) or SKIPS["graphs_with_inexact_metrics"] > 0.4 * SKIPS["graphs"]:
+        raise common.MachineryError(f"C19 generator degenerate: {SKIPS}")
     rep.rule = "tracked graphs of random modules with 1-10 ops (direct backend; a few through TorchDynamo) x {non_float, same_scale x 3 rtols, selected x 2 random target sets}; graphs whose metrics sit within 1e-9 of an rtol threshold are skipped for that rtol; non-trivial = graphs with >= 5 nodes"
     if traces:
         t = traces[len(traces) // 2]
